@@ -359,6 +359,29 @@ PURE_EXTERNALS = {
     're.DOTALL': re.DOTALL, 're.MULTILINE': re.MULTILINE, 're.IGNORECASE': re.IGNORECASE,
     're.escape': re.escape,
 }
+class DequeList(list):
+    """collections.deque as the analysed program uses it (a stack or queue of values): a list with the deque methods."""
+
+    def __init__(self, it=(), maxlen=None):
+        list.__init__(self, it)
+
+    def popleft(self):
+        return self.pop(0)
+
+    def appendleft(self, x):
+        self.insert(0, x)
+
+    def extendleft(self, xs):
+        for x in xs:
+            self.insert(0, x)
+
+    def rotate(self, n=1):
+        if self:
+            n %= len(self)
+            self[:] = self[-n:] + self[:-n]
+
+
+PURE_EXTERNALS['collections.deque'] = DequeList
 # every constant of the string module, every flag of re (long and short names)
 for _n in ('ascii_letters', 'ascii_lowercase', 'ascii_uppercase', 'hexdigits', 'octdigits', 'printable', 'whitespace'):
     PURE_EXTERNALS['string.' + _n] = getattr(_string_mod, _n)
@@ -2088,6 +2111,9 @@ class PyMethod:
         if isinstance(recv, GenVal):
             return Unknown('gen.%s' % name)
         hook = interp.intrinsics.get('str.' + name) if isinstance(recv, str) else None
+        if isinstance(recv, str) and name == 'join' and len(args) == 1 and isinstance(args[0], GenVal):
+            # what a generator function of the program yields, joined: the items are taken as a list
+            args = [list(interp.iterate(args[0]))]
         if isinstance(recv, str) and (contains_abstract(list(args)) or contains_abstract(kwargs)):
             if hook is not None:
                 return hook(interp, [recv] + list(args), kwargs)
